@@ -27,9 +27,13 @@ pub fn run(case: &Value, em: &mut Emitter) {
 
 // ---------------------------------------------------------------- random documents
 pub struct Pools;
-pub const SRC_POOL: &[&str] = &["a.js", "", "/abs/x.js", "http://h/y.js", "https://h/z.js", "httpx.js", "dir/b.js", "a.js", "ünï.js", "http:", "/"];
+// (the pools contain the strings the crate itself uses as placeholders: "<invalid>", "<unknown>", "~")
+pub const SRC_POOL: &[&str] = &["a.js", "", "/abs/x.js", "http://h/y.js", "https://h/z.js", "httpx.js", "dir/b.js", "a.js", "ünï.js", "http:", "/", "<unknown>", "~", "A.js"];
 pub const ROOT_POOL: &[&str] = &["", "r", "r/", "/", "webpack:///", "http://cdn/x", "r//"];
-pub const NAME_POOL: &[&str] = &["foo", "", "bar", "foo", "\"q\"", "naïve", "𝒳", "a\\b", "\n"];
+pub const NAME_POOL: &[&str] = &["foo", "", "bar", "foo", "\"q\"", "naïve", "𝒳", "a\\b", "\n", "<invalid>", "<unknown>", "Foo", "~"];
+/// JSON numbers in shortest form: 53/54-bit neighbours, 64-bit extremes, negative, fractions, a large exponent-free float
+pub const NUM_LITS: &[&str] = &["9007199254740993", "9007199254740992", "18446744073709551615", "-9223372036854775808", "4294967296", "-1",
+                                "1.0", "2.5", "0.1", "-0.5", "123456789.125"];
 pub const UUIDS: &[&str] = &["00000000-0000-0000-0000-000000000000", "11111111-1111-1111-1111-111111111111", "a0b1c2d3-e4f5-4a6b-8c7d-9e0f1a2b3c4d", "a0b1c2d3-e4f5-4a6b-8c7d-9e0f1a2b3c4d-a", "11111111-1111-1111-1111-111111111111-ff"];
 
 /// random well-formed abstract token list, sorted by construction (text order), returned as a
@@ -85,7 +89,7 @@ pub fn gen_flat_doc(rng: &mut Rng, size: usize, hermes: bool) -> Value {
     let neg = rng.chance(1, 4);
     let text = gen_mappings(rng, nseg, nsrc, nnm, neg);
     let sources: Vec<Value> = (0..nsrc).map(|_| if rng.chance(1, 8) { json!([]) } else { json!([if rng.chance(1, 3) { cps(&gen_src_name(rng)) } else { cps(*rng.pick(SRC_POOL)) }]) }).collect();
-    let names: Vec<Value> = (0..nnm).map(|_| if rng.chance(1, 6) { json!({"n": rng.below(100000)}) } else { json!({"s": rng.pick(NAME_POOL)}) }).collect();
+    let names: Vec<Value> = (0..nnm).map(|_| if rng.chance(1, 6) { json!({"n": rng.below(100000)}) } else if rng.chance(1, 8) { json!({"lit": *rng.pick(NUM_LITS)}) } else { json!({"s": rng.pick(NAME_POOL)}) }).collect();
     let mut d = json!({"version": [3], "sources": [sources], "names": [names], "mappings": [text]});
     if rng.chance(1, 2) { d["root"] = json!([if rng.chance(1, 3) { cps(&gen_root_name(rng)) } else { cps(*rng.pick(ROOT_POOL)) }]); }
     if rng.chance(1, 2) { d["file"] = json!([{"s": rng.pick(NAME_POOL)}]); }
@@ -114,11 +118,21 @@ pub fn gen_flat_doc(rng: &mut Rng, size: usize, hermes: bool) -> Value {
         let hdr: &[u8] = *rng.pick(&[&b")]}'\n"[..], &b")]}garbage\r\n"[..], &b"}\n"[..], &b"'x\n"[..]]);
         d["junk"] = json!([hdr.iter().map(|b| json!(*b)).collect::<Vec<_>>()]);
     }
-    if rng.chance(1, 2) {
-        let mut order: Vec<&str> = DEFAULT_ORDER.to_vec();
-        shuffle(rng, &mut order);
-        d["order"] = json!(order);
+    let mut order: Vec<&str> = DEFAULT_ORDER.to_vec();
+    if rng.chance(1, 2) { shuffle(rng, &mut order); }
+    if rng.chance(1, 6) {
+        // unknown keys are skipped whatever (well-formed) value they hold, wherever they stand
+        let extras: &[(&str, &str)] = &[("x_a", r#"{"mappings":"!!","sections":[1],"version":9}"#), ("x_b", r#"[null,true,1.5e3,"s\u00e9\ud83d\ude00",{"a":[]}]"#),
+                                        ("x_c", "\"caf\u{e9} \u{1F600}\""), ("zzz", "null"), ("sourcesRoot", "\"near miss\""), ("Mappings", "\"AAAA\""), ("x_big", "18446744073709551615")];
+        let mut ex = serde_json::Map::new();
+        for _ in 0..1 + rng.below(3) {
+            let (k, v) = *rng.pick(extras);
+            if !order.contains(&k) { let at = rng.below(order.len() as u64 + 1) as usize; order.insert(at, k); }
+            ex.insert(k.to_string(), json!(v));
+        }
+        d["extra"] = Value::Object(ex);
     }
+    if order != DEFAULT_ORDER { d["order"] = json!(order); }
     d
 }
 
@@ -137,6 +151,8 @@ pub fn gen_index_doc(rng: &mut Rng, size: usize, depth: usize) -> Value {
             _ => { s["map"] = json!([gen_flat_doc(rng, size.min(3), false)]); }
         }
         if let Some(m) = s.get_mut("map") { m[0].as_object_mut().unwrap().remove("junk"); }
+        // a section may carry a url NEXT TO its embedded map
+        if s.get("map").is_some() && rng.chance(1, 6) { s["url"] = json!(["http://x/also.map"]); }
         secs.push(s);
         line += 1 + rng.below(30);
     }
@@ -147,6 +163,8 @@ pub fn gen_index_doc(rng: &mut Rng, size: usize, depth: usize) -> Value {
 
 pub fn gen(rng: &mut Rng, size: usize) -> Value {
     if rng.chance(1, 6) { return crate::big::gen_big(rng, size); }
+    // documents that must be REFUSED are mixed in: what a decoder remembers of a failure must not leak into the next call
+    if rng.chance(1, 8) { return crate::c06::gen(rng, size); }
     match rng.below(10) {
         0 | 1 => json!({"doc": gen_index_doc(rng, size, 2)}),
         2 => json!({"doc": gen_flat_doc(rng, size, true)}),
